@@ -1,7 +1,6 @@
 (* C09.2: loop_forever ends only because the script ended (i.e. every failure was followed by another
    attempt), because the application acted, because reconnect_on_failure is off, or with the documented
-   OSError of a refused FIRST attempt without retry_first_connection - provided the first CONNACK rc 1 of the
-   script is not directly followed by a refused TCP connect (the defect F-C09b). *)
+   OSError of a refused FIRST attempt without retry_first_connection. *)
 From PahoV Require Import Base.Prelude Link.Backoff Link.BackoffProofs Link.BackoffU Link.BoolTaut Link.BackoffFinal.
 
 Definition ss (seen : bool) (e : bev) : option bool :=
@@ -39,8 +38,8 @@ Definition invR (cfg : config) (script0 : list outcome) (p : pc) (s : bst) (seen
   && (negb (b_acted s) || negb (is_pending (b_sock s)))
   && (negb (is_pending (b_sock s)) || is_inner p || (is_first p && negb (is_async (b_cs s))))
   && (negb (is_async (b_cs s)) || is_nosock (b_sock s))
-  && (negb (b_p311 s) || negb (c_rof cfg) || dtr_ok (b_sock s) (b_script s))
-  && (negb (is_async (b_cs s)) || negb (xorb (first_is_refused (b_script s)) (first_is_refused script0)))
+  && (negb (is_async (b_cs s)) || c_retry_first cfg
+      || negb (xorb (first_is_refused (b_script s)) (first_is_refused script0)))
   && ret_ok cfg script0 p s.
 
 Lemma ss_act c t f k : chk ss c (act_ev t f k) = Some (c || f).
@@ -170,6 +169,8 @@ Ltac r_leaf :=
   try match goal with H : (?a =? ?b) = _ |- _ => discriminate H end;
   repeat match goal with
   | H : context [match b_cs ?s with BDisconnecting => _ | _ => _ end] |- _ => destruct (b_cs s) eqn:?
+  | H : context [match b_cs ?s with BConnecting => _ | _ => _ end] |- _ => destruct (b_cs s) eqn:?
+  | |- context [match b_cs ?s with BConnecting => _ | _ => _ end] => destruct (b_cs s) eqn:?
   end;
   repeat match goal with
   | H : context [if ?b then ?s else set_now ?t ?s] |- _ => destruct b
@@ -177,20 +178,23 @@ Ltac r_leaf :=
   end;
   cbv beta; bproj; r_chk;
   unfold invR, ret_ok, should_exit in *; bproj;
+  repeat match goal with H : b_cs ?x = _ |- _ => is_var x; try rewrite H in *; clear H end;
   repeat match goal with H : b_sock ?x = _ |- _ => rewrite H in *; clear H end;
   repeat match goal with H : b_script ?x = _ :: _ |- _ => rewrite H in *; clear H
                     | H : b_script ?x = [] |- _ => rewrite H in *; clear H end;
   repeat (r_obs; bproj);
-  repeat match goal with
-  | H : context [dtr_ok (b_sock ?x) _] |- _ => destruct (b_sock x) eqn:?
-  | |- context [dtr_ok (b_sock ?x) _] => destruct (b_sock x) eqn:?
-  end;
   repeat match goal with o : outcome |- _ => destruct o; try congruence end;
-  cbn [dtr_ok] in *; rewrite ?dtr_dg in *;
   cbn [is_pending is_nosock is_first is_inner dtr_ok first_is_refused downgrade_then_refused
        disc_like is_async andb orb negb xorb] in *;
   clear_junk;
   repeat match goal with c : bst |- _ => lazymatch goal with H : negb (is_async (b_cs c)) || negb (disc_like (b_cs c)) = true |- _ => fail | _ => pose proof (async_not_disc (b_cs c)) end end;
+  repeat match goal with
+  | H : b_acted ?x = _ |- _ => is_var x; try rewrite H in *; clear H
+  | H : b_term ?x = _ |- _ => is_var x; try rewrite H in *; clear H
+  | H : disc_like (b_cs ?x) = _ |- _ => is_var x; try rewrite H in *; clear H
+  | H : is_async (b_cs ?x) = _ |- _ => is_var x; try rewrite H in *; clear H
+  end;
+  cbn [disc_like is_async andb orb negb xorb] in *;
   ttaut.
 
 Lemma R_step cfg script0 : forall p s c, invR cfg script0 p s c = true -> is_done p = false ->
@@ -205,5 +209,5 @@ Proof.
   change (G (step cfg p s) = true).
   destruct p; try discriminate; unfold step, loop_once, loop_up, read_pending; bproj.
   all: repeat r1.
-  all: subst G; r_leaf.
+  all: subst G; timeout 100 r_leaf.
 Qed.
